@@ -635,6 +635,72 @@ def evaluate_history(tmp, case):
 
 
 # ---------------------------------------------------------------------------------------------------------------
+# One configuration object saved several times: every successful save leaves its destination holding exactly the
+# bytes serialised by that save, whatever the object was saved to before and whatever happened to the files since
+# ---------------------------------------------------------------------------------------------------------------
+
+OBJECT_HISTORIES = [
+    # (label, steps); a step is ("save", dest-name), ("clobber", dest-name, how), ("edit",)
+    ("other-existing-destination", [("save", "a"), ("clobber", "b", "older-save"), ("save", "b")]),
+    ("same-destination-overwritten-by-someone-else", [("save", "a"), ("clobber", "a", "garbage"), ("save", "a")]),
+    ("same-destination-replaced-by-older-save", [("save", "a"), ("clobber", "a", "older-save"), ("save", "a")]),
+    ("same-destination-truncated", [("save", "a"), ("clobber", "a", "empty"), ("save", "a")]),
+    ("same-destination-deleted", [("save", "a"), ("clobber", "a", "absent"), ("save", "a")]),
+    ("two-destinations-alternating", [("save", "a"), ("save", "b"), ("clobber", "a", "garbage"), ("save", "a"), ("clobber", "b", "older-save"), ("save", "b")]),
+    ("edit-and-back", [("save", "a"), ("edit",), ("save", "a"), ("edit",), ("clobber", "a", "older-save"), ("save", "a")]),
+    ("unchanged-resave-of-an-untouched-file", [("save", "a"), ("save", "a"), ("save", "a")]),
+]
+
+
+def evaluate_object_history(tmp, case):
+    fmt = case["fmt"]
+    steps = dict(OBJECT_HISTORIES)[case["object_history"]]
+    kind = case.get("kind", "flat")
+    cfg, fresh = build(kind, tmp, variant=1)
+    dests = {n: os.path.join(tmp, "out", "object-%s.%s" % (n, fmt)) for n in ("a", "b")}
+    os.makedirs(os.path.join(tmp, "out"), exist_ok=True)
+    failures = []
+    edits = 0
+    for i, step in enumerate(steps):
+        if step[0] == "clobber":
+            dest, how = dests[step[1]], step[2]
+            if how == "older-save":
+                set_prior(dest, "previous-save", kind, fmt, tmp)
+            elif how == "absent":
+                set_prior(dest, "absent", kind, fmt, tmp)
+            else:
+                set_prior(dest, "empty-file" if how == "empty" else "garbage-longer", kind, fmt, tmp)
+            continue
+        if step[0] == "edit":
+            edits += 1
+            other, _f = build(kind, tmp, variant=edits % 2)
+            cfg.load_tree(other.to_tree())
+            continue
+        dest = dests[step[1]]
+        res = run_save(cfg, dest, fmt, {}, None)
+        if res["raised"] is not None:
+            failures.append((OB_EXACT, "step %d of %s: a save that should succeed raised %r" % (i, case["object_history"], res["raised"])))
+            break
+        now = read_state(dest)
+        expected = res["dumped"][0] if res["dumped"] else None
+        if now != expected:
+            failures.append((OB_EXACT, "step %d (%s) of %s: save returned but the destination holds %s, not the bytes just serialised %s"
+                             % (i, step, case["object_history"], _short(now), _short(expected))))
+            break
+        back = fresh()
+        try:
+            back.load(dest, fmt)
+        except Exception as err:  # noqa: BLE001
+            failures.append((OB_LOADS_BACK, "step %d of %s: the file just saved does not load: %r" % (i, case["object_history"], err)))
+            break
+        d = diff_config(cfg, back)
+        if d:
+            failures.append((OB_LOADS_BACK, "step %d of %s: the file just saved loads back different: %s" % (i, case["object_history"], d[:3])))
+            break
+    return {"outcome": "object-history", "failures": failures, "error": None}
+
+
+# ---------------------------------------------------------------------------------------------------------------
 # Save histories with key-file changes: the file written last must be encrypted, at every depth, with the key file
 # the configuration names at the time of that save, so a fresh configuration naming the same key files loads it back
 # ---------------------------------------------------------------------------------------------------------------
@@ -1485,6 +1551,11 @@ def cases(tier, rng):
                             n += 1
                         ops.append(op)
                     yield {"history": True, "fmt": fmt, "ops": ops}
+    # one configuration object saved several times, every format
+    for name, _steps in OBJECT_HISTORIES:
+        for fmt in FORMATS:
+            for kind in ("flat", "nested"):
+                yield {"object_history": name, "fmt": fmt, "kind": kind}
     # save histories with key-file changes, every format
     for name in keyfile_histories():
         for fmt in FORMATS:
@@ -1526,6 +1597,8 @@ def cases(tier, rng):
 
 
 def witness_base(case, obligation):
+    if case.get("object_history"):
+        return "object-history:" + case["object_history"]
     if case.get("dest_kind"):
         return "destination-name:" + case["dest_kind"]
     if case.get("keyfile_failure_history"):
@@ -1554,6 +1627,8 @@ def dispatch(tmp, case):
         return evaluate_sweep(tmp, case)
     if case.get("history"):
         return evaluate_history(tmp, case)
+    if case.get("object_history"):
+        return evaluate_object_history(tmp, case)
     if case.get("keyfile_history"):
         return evaluate_keyfile_history(tmp, case)
     if case.get("unencodable"):
@@ -1596,7 +1671,10 @@ def rac(tier: str, seed: int) -> dict:
               "x 5 positions x 4 exception kinds incl. a BaseException, to_basic of 15 built-in field classes, 5 "
               "unusable key files, 4 encryption faults, unknown format names, bad formatter option, 9 out-of-domain "
               "values, formatter dumps/__init__/registry failures, to_tree, virtual getter); save histories: length 3 "
-              "exhaustive (quick), length 4-8 seeded until the budget is used (thorough); %d key-file histories "
+              "exhaustive (quick), length 4-8 seeded until the budget is used (thorough); 8 histories of ONE configuration "
+              "object saved 2-3 times (to another destination that already holds an older configuration, to the same "
+              "destination after someone else overwrote / truncated / deleted / replaced it, after edits) x flat/nested x "
+              "format: after every save the destination holds the bytes just serialised and loads back equal; %d key-file histories "
               "(2-3 saves; secrets xor/aes/best at the root, depth 1-2 sub-schemas, config type, list items and their "
               "sub-schema; 3 named key files + the default one); %d un-encodable value kinds x %d holders x 2 previous "
               "contents (tuples, non-string map keys, Decimal/datetime for bson excluded: documented codec coercions "
@@ -1629,6 +1707,9 @@ def rac(tier: str, seed: int) -> dict:
                 nontrivial = True
             elif case.get("keyfile_history"):
                 key = ("keyfile-history", case["keyfile_history"], case["fmt"])
+                nontrivial = True
+            elif case.get("object_history"):
+                key = ("object-history", case["object_history"], case["fmt"], case.get("kind"))
                 nontrivial = True
             elif case.get("unencodable"):
                 key = ("unencodable", case["unencodable"], case["holder"], case["fmt"], case["prior"])
